@@ -106,12 +106,26 @@ fn c08_txn(a: &Analysis, t: &Txn, d: usize, out: &mut Vec<Violation>) {
     let ser = sc.ser_us + sc.ser_ns_byte * (e.seg as u64 + 64) / 1000;
     let ser_eff = if ser == 0 { 0 } else { ser.div_ceil(1000) * 1000 };
     let naks: Vec<_> = t.at_dst.sent.iter().filter(|s| s.kind == Kind::Nak && s.seq < end).collect();
+    // A request list is computed when a round is triggered and then drained one PDU at a time at
+    // the pace of the link; the statement does not ask the receiver to re-validate what is already
+    // queued when a retransmission arrives meanwhile. "Only what is missing" is therefore judged
+    // against what the receiver held when the current burst of NAK PDUs began (PDUs at most one
+    // serialisation time + 1 ms apart form a burst).
+    let mut burst_start: Option<(u64, u64, u64)> = None; // (seq, vt, not_before) of the burst's first PDU
+    let mut prev_nak_vt: Option<u64> = None;
     for s in &naks {
         let Some(p) = &s.pdu else { continue };
         let Some(Operations::Nak(n)) = op_of(p) else { continue };
         let prev = a.sends.iter().filter(|x| x.src == d && !x.injected && x.seq < s.seq).last().map(|x| x.vt).unwrap_or(0);
+        let same_burst = prev_nak_vt.map(|pv| s.vt <= pv + ser_eff + 1000).unwrap_or(false);
+        if !same_burst || burst_start.is_none() {
+            burst_start = Some((s.seq, s.vt, prev));
+        }
+        prev_nak_vt = Some(s.vt);
+        let (bseq, bvt, bprev) = burst_start.unwrap();
+        let cands_burst = candidates(&recvd, bseq, bvt, bprev);
         let cands = candidates(&recvd, s.seq, s.vt, prev);
-        let first = &cands[0];
+        let first = &cands_burst[0];
         let last = cands.last().unwrap();
         // (b) the PDU fits the configured maximum size
         // (the configured size is the maximum length of a file segment: the largest PDU the entity
